@@ -380,6 +380,26 @@ impl<const K: usize, const B: usize> Txt<K, B> {
         Txt { buf, len: 8 + K, pre_b: 8, pre_c: 7, pre_nl: 1, pre_line_b: 3, pre_line_c: 2, n: K, ch, start }
     }
 
+    /// Constant prefix "é\n" followed by exactly K symbolic ASCII characters: every byte position is a constant.
+    pub(crate) fn ascii_exact() -> Self {
+        let mut buf = [0u8; B];
+        buf[0] = 0xc3;
+        buf[1] = 0xa9;
+        buf[2] = b'\n';
+        let mut ch = ['\0'; K];
+        let mut start = [0usize; K];
+        let mut i = 0;
+        while i < K {
+            let b: u8 = kani::any();
+            kani::assume(b < 0x80);
+            buf[3 + i] = b;
+            ch[i] = b as char;
+            start[i] = 3 + i;
+            i += 1;
+        }
+        Txt { buf, len: 3 + K, pre_b: 3, pre_c: 2, pre_nl: 1, pre_line_b: 3, pre_line_c: 2, n: K, ch, start }
+    }
+
     pub(crate) fn as_str(&self) -> &str {
         unsafe { std::str::from_utf8_unchecked(&self.buf[..self.len]) }
     }
